@@ -385,6 +385,10 @@ func flat(xs []string) []string {
 }
 
 func main() {
+	if len(os.Args) > 1 && os.Args[1] == "-retry" {
+		retryMain() // retry.go: the waiting side (typed IRs of Model/Retry.lean) → Gen/RetryLoop.lean
+		return
+	}
 	repo := os.Getenv("VERIF_REPO")
 	if repo == "" {
 		repo = "/repo"
